@@ -629,13 +629,7 @@ func c16direct(c *runner.Ctx, i int) {
 			}
 			n := cand[r.Intn(len(cand))]
 			desc = fmt.Sprintf("leave of %s while its pool reconnects", n.IP)
-			var slow int32 = 1
-			n.OnHandshake = func(sc *fakenode.ServerConn, op byte) bool {
-				if op == cqlref.OpStartup && atomic.LoadInt32(&slow) == 1 {
-					time.Sleep(150 * time.Millisecond)
-				}
-				return false
-			}
+			atomic.StoreInt64(&n.StartupDelayNs, int64(150*time.Millisecond))
 			for _, sc := range n.OpenConns() {
 				if !sc.Control() {
 					sc.Close()
@@ -655,7 +649,7 @@ func c16direct(c *runner.Ctx, i int) {
 				return
 			}
 			time.Sleep(300 * time.Millisecond)
-			atomic.StoreInt32(&slow, 0)
+			atomic.StoreInt64(&n.StartupDelayNs, 0)
 			n.SetDown(true)
 			c.Add("step_leave_while_reconnecting", 1)
 		case step == 18 && len(others) > 1:
